@@ -6,7 +6,9 @@ props=${*:-"C01 C02 C03 C04 C05 C06 C07 C08 C09 C10 C11 C12 C13 C14 C15 C16 C17 
 cd "$(dirname "$0")/.." || exit 2
 if [ -n "$(git -C /repo status --porcelain --untracked-files=no)" ]; then echo "/repo not clean"; exit 2; fi
 git -C /repo apply "$patch" || { echo "patch does not apply"; exit 2; }
-trap 'git -C /repo checkout -- . ' EXIT INT TERM
+# evidence and replay files written while a mutant is applied are not evidence about /repo: put the real ones back afterwards
+keep=$(mktemp -d /var/tmp/verif-evidence.XXXXXX); cp -a evidence/. "$keep"/ 2>/dev/null
+trap 'git -C /repo checkout -- . ; rm -rf evidence; mkdir -p evidence; cp -a "$keep"/. evidence/ 2>/dev/null; rm -rf "$keep"' EXIT INT TERM
 det=""
 for p in $props; do
   out=$(./check $p --tier $tier 2>&1); r=$?
